@@ -158,9 +158,7 @@ func (x *Exec) callStatic(c *callCtx, callee *ssa.Function, ci *closureInfo) {
 			x.inlineCall(c, callee, ci)
 			return
 		}
-		for _, h := range x.prog.modHeapsList(callee) {
-			x.havocVar(c.st, h)
-		}
+		x.havocCalleeEffects(c.n, c.st, callee)
 		c.freshResults(mangle(callee.Name()))
 		return
 	}
@@ -181,7 +179,15 @@ func (x *Exec) canInline(fr *Frame, callee *ssa.Function) bool {
 	for _, b := range callee.Blocks {
 		size += len(b.Instrs)
 	}
-	return size <= 600
+	limit := 300
+	if fr.depth >= 1 {
+		limit = 120
+	}
+	if size > limit || x.inlined+size > 2500 {
+		return false
+	}
+	x.inlined += size
+	return true
 }
 
 type retRec struct {
@@ -268,9 +274,7 @@ func (x *Exec) inlineCall(c *callCtx, callee *ssa.Function, ci *closureInfo) {
 func (x *Exec) havocCallee(fr *Frame, n *Node, st *State, common *ssa.CallCommon) {
 	if callee := common.StaticCallee(); callee != nil {
 		if x.prog.isPint(callee) {
-			for _, h := range x.prog.modHeapsList(callee) {
-				x.havocVar(st, h)
-			}
+			x.havocCalleeEffects(n, st, callee)
 			return
 		}
 		if _, ok := specTable[calleeName(callee)]; ok {
@@ -300,6 +304,7 @@ func (x *Exec) externalCall(c *callCtx, name string) {
 	for _, h := range x.prog.externalMods(c.common.Signature(), c.common.Args) {
 		x.havocVar(c.st, h)
 	}
+	x.bumpAlloc(c.n, c.st)
 	// places passed by address (cells) may be written by the callee
 	for _, a := range c.argVals {
 		if p, ok := c.fr.places[a]; ok && p.kind != pObj {
